@@ -7,11 +7,13 @@
 (* sub read unsigned little-endian integers of up to 32 bytes and return 32  *)
 (* little-endian bytes; jacobi reads 32-byte little-endian n (and k).        *)
 (***************************************************************************)
-EXTENDS Base58, Bech32, ScriptNum, ScriptCodec
+EXTENDS Base58, Bech32, ScriptNum, ScriptCodec, SigEncoding
 
 Data(b) == <<"data", b>>
 Str(c) == <<"str", c>>
 IntV(x) == <<"int", x>>
+\* a serialized public key whose length matches its header byte (CPubKey::IsValid)
+KeyShape(k) == (Len(k) = 33 /\ k[1] \in {2, 3}) \/ (Len(k) = 65 /\ k[1] \in {4, 6, 7})
 TfFail == <<"fail">>
 DefaultHrp == StrToCodes("bcrt")
 
@@ -75,7 +77,27 @@ Transform(name, args) ==
       [] name = "verify_sig" ->
             IF nb # 3 \/ Len(b1) # 32 THEN TfFail
             ELSE IF Len(args[2][2]) = 32 THEN (IF ~IsOnCurveX(args[2][2]) THEN TfFail ELSE IntV(IntFromSmall(IF SchnorrVerify(args[2][2], args[3][2], b1) THEN 1 ELSE 0)))
-            ELSE TfFail
+            \* ECDSA: the signature is DER read leniently (as Bitcoin reads old signatures), without hash-type byte; high s accepted
+            ELSE IF ~KeyShape(args[2][2]) THEN TfFail
+            ELSE LET d == LaxDER(args[3][2])
+                 IN IntV(IntFromSmall(IF d[1] /\ ECDSAVerify(args[2][2], d[2], d[3], b1) THEN 1 ELSE 0))
+      \* arithmetic on public keys (libsecp256k1 semantics; a key is usable when its length matches its header byte)
+      [] name = "combine_pubkeys" ->
+            IF nb # 2 \/ ~KeyShape(b1) \/ ~KeyShape(args[2][2]) THEN TfFail
+            ELSE LET r == PubKeyCombine(b1, args[2][2]) IN IF ~r[1] THEN TfFail ELSE Data(r[2])
+      [] name = "tweak_pubkey" ->            \* (value, key): value * key
+            IF nb # 2 \/ Len(b1) # 32 \/ ~KeyShape(args[2][2]) THEN TfFail
+            ELSE LET r == PubKeyTweakMul(args[2][2], b1) IN IF ~r[1] THEN TfFail ELSE Data(r[2])
+      [] name = "pubkey_to_xpubkey" ->
+            IF ~KeyShape(b1) THEN TfFail
+            ELSE LET r == PubKeyParse(b1) IN IF ~r[1] THEN TfFail ELSE Data(Tail(r[2]))
+      [] name = "verify_sig_compact" ->      \* ECDSA over a 64-byte r || s signature (high s accepted); 32-byte keys: BIP340 as verify_sig
+            IF nb # 3 \/ Len(b1) # 32 THEN TfFail
+            ELSE IF Len(args[2][2]) = 32 THEN (IF ~IsOnCurveX(args[2][2]) THEN TfFail ELSE IntV(IntFromSmall(IF SchnorrVerify(args[2][2], args[3][2], b1) THEN 1 ELSE 0)))
+            ELSE IF ~KeyShape(args[2][2]) THEN TfFail
+            ELSE LET sg == args[3][2]
+                 IN IntV(IntFromSmall(IF Len(sg) = 64 /\ ECDSAVerify(args[2][2], FirstN(sg, 32), LastN(sg, 32), b1) THEN 1 ELSE 0))
+      [] name = "echo" -> a1
       [] OTHER -> TfFail
 
 \* how a value is compiled when the transform is used inline in a script (btcc 'name(arg)')
